@@ -27,7 +27,8 @@ type scalarPool struct {
 }
 
 func (p *scalarPool) str() string {
-	words := []string{"lab-1", "x y", "ten", "a.b", "zero!", "q", "Lab-1", "two words", "v/1", "#tag", "né", "1st", "-", "tr ue"}
+	// incl. constants with a blank at either end: a decoder that trims its input no longer finds them
+	words := []string{"lab-1", "x y", "ten", "a.b", "zero!", "q", "Lab-1", "two words", "v/1", "#tag", "né", "1st", "-", "tr ue", "warn: ", " w", " pad ", "tail\t"}
 	if p.emptyOK && !p.usedStr[""] && p.g.rng.Intn(3) == 0 {
 		p.usedStr[""] = true
 		return ""
